@@ -12,7 +12,7 @@ from sim import workloads as W
 from sim import faults as F
 from sim import receivers as R
 from sim import simfs as S
-from sim.bytechan import ByteChanSpec, cfg_class, ACCEPT_KINDS, h_dims
+from sim.bytechan import ByteChanSpec, cfg_class, src_of, ACCEPT_KINDS, h_dims
 
 import vc2_conformance.file_format as file_format  # noqa: E402
 import vc2_conformance.scripts.vc2_bitstream_validator as validator_mod  # noqa: E402
@@ -49,6 +49,10 @@ def h_read_raw(data, dims):
         pic[comp] = rows
     return pic, pos
 
+
+# the input file's path as typed by the user (free text: spaces, braces, percent
+# signs, quotes, non-ASCII)
+INPATHS = ["/sim/in/stream.vc2"] * 5 + ["/sim/in/{streams}/x y.vc2", "/sim/in/100%d%s.vc2", "/sim/in/a'b\"c.vc2", "/sim/in/{0}{}.vc2", "/sim/in/\u00fcn\u00ef \u6f22.vc2", "/sim/in/dir.with.dots/noext", "/sim/in/{cmd} {file} {offset}.vc2"]
 
 PATTERNS = ["picture_%d.raw", "%05d.raw", "a.b_%d.raw", "sub/p%d.raw", "noext_%d", "x%dy.json", "pic-%03d.raw",
             "dir.v1/p_%d", "dir.v1/p_%d.raw", ".hidden_%d", "sub/.h%d.raw", "dir.v1/q%d.tar.raw",
@@ -96,6 +100,7 @@ class C25(ByteChanSpec):
         case["verbose"] = rng.choice([0, 0, 1])
         # terminal width the tool sees (it wraps its report to it)
         case["columns"] = rng.choice([None, None, None, None, "10", "20", "40", "79", "80", "300"])
+        case["inpath"] = rng.choice(INPATHS)
         return case
 
     def shrink(self, case):
@@ -107,6 +112,8 @@ class C25(ByteChanSpec):
             yield dict(case, status=False)
         if case.get("columns") is not None:
             yield dict(case, columns=None)
+        if case.get("inpath", INPATHS[0]) != INPATHS[0]:
+            yield dict(case, inpath=INPATHS[0])
 
     def judge(self, case, clean, data, changed, events, stats):
         def viol(sig, detail):
@@ -120,9 +127,10 @@ class C25(ByteChanSpec):
             return Outcome(DISCARD, events, stats=stats, ticks=ticks)
         lname = lib.verdict if lib.exc is None else "%s:%s" % (lib.verdict, type(lib.exc).__name__)
         fs = S.SimFS("/sim")
-        fs.put("/sim/in/stream.vc2", data)
+        inpath = case.get("inpath", INPATHS[0])
+        fs.put(inpath, data)
         fs.dirs.update({"/sim/out", "/sim/out/sub", "/sim/out/dir.v1"})
-        argv = ["/sim/in/stream.vc2", "--output", "/sim/out/" + case["pattern"]]
+        argv = [inpath, "--output", "/sim/out/" + case["pattern"]]
         if not case["status"]:
             argv.append("--no-status")
         argv += ["-v"] * case["verbose"]
@@ -153,7 +161,7 @@ class C25(ByteChanSpec):
         stdout, stderr = out.getvalue(), err.getvalue()
         events.append(("cli", rc, lname, len(stdout), sorted(fs.files), case.get("columns")))
         stats["rc:%s" % (rc,)] += 1
-        key = "%s|%s|%s|rc=%s" % (cfg_class(case.get("cfg") or case.get("tc") or case.get("hist")), self.kinds_of(case), lname, rc)
+        key = "%s|%s|%s|rc=%s" % (cfg_class(src_of(case)), self.kinds_of(case), lname, rc)
         if rc == "oos":
             stats["discard:out-of-scope"] += 1
             return Outcome(DISCARD, events, stats=stats, ticks=ticks)
@@ -305,6 +313,7 @@ class C26(ByteChanSpec):
             }
         case["clock"] = [rng.choice([0.0, 0.0, 0.001, 0.05, 0.2, 1.0, 3600.0, -5.0, -3600.0]) for _ in range(rng.randrange(1, 6))]
         case["interval"] = rng.choice([0.1, 0.1, 0.0, 0.001, 10.0])
+        case["inpath"] = rng.choice(INPATHS)
         return case
 
     def shrink(self, case):
@@ -329,9 +338,10 @@ class C26(ByteChanSpec):
         if case.get("env") is not None:
             return self.judge_env(case, data, changed, pre, events, stats)
         fs = S.SimFS("/sim")
-        fs.put("/sim/in/stream.vc2", data)
+        inpath = case.get("inpath", INPATHS[0])
+        fs.put(inpath, data)
         clock = S.TimeShim(1000.0, case["clock"])
-        argv = ["/sim/in/stream.vc2"] + list(case["opts"])
+        argv = [inpath] + list(case["opts"])
         rc = exc = None
         old_interval = viewer_mod.STATUS_LINE_UPDATE_INTERVAL
         viewer_mod.STATUS_LINE_UPDATE_INTERVAL = case["interval"]
@@ -353,7 +363,7 @@ class C26(ByteChanSpec):
         stats[("observe_rc:%s" if observe else "rc:%s") % (rc,)] += 1
         stats["clock_reads"] += clock.calls
         stats["simulated_seconds"] += int(clock.simulated_span)
-        key = "%s|%s|%s|rc=%s|%s" % (cfg_class(case.get("cfg") or case.get("tc") or case.get("hist")), self.kinds_of(case), pre.verdict, rc, "opt" if observe else "default")
+        key = "%s|%s|%s|rc=%s|%s" % (cfg_class(src_of(case)), self.kinds_of(case), pre.verdict, rc, "opt" if observe else "default")
         if observe:
             return Outcome(OK, events, stats=stats, nontrivial=False, key=key, ticks=pre.reads)
         if exc is not None:
